@@ -29,7 +29,10 @@ CHECK = dict(
 
 LIB_POOL = ["kernel32.dll", "KERNEL32.dll", "Kernel32.DLL", "kernel32", " kernel32.dll ",
             "user32.dll", "USER32", "ntdll.dll", "advapi32.dll", "msvcrt.dll", "ws2_32.dll",
-            "libc.so.6", "libm.so.6", "libfoo.so", "a.dll", "b.dll", "ole32", "shell32.DLL"]
+            "libc.so.6", "libm.so.6", "libfoo.so", "a.dll", "b.dll", "ole32", "shell32.DLL",
+            # distinct libraries whose names share the part before the first dot, or differ by where an
+            # underscore falls between library and function name
+            "libc.so", "winspool.drv", "winspool.dll", "api_ms.dll", "api.dll", "a.b.dll"]
 FUNC_STEMS = ["CreateFile", "Read", "Write", "Close", "Get", "Set", "Reg", "Rtl", "Nt", "Zw", "str",
               "mem", "f", "_", "?x@@", "Wsa"]
 
@@ -102,6 +105,15 @@ def run_history(rng, rec, libimp, hist_no):
         cl = canon_lib(ln)
         if cl not in pools:
             pools[cl] = mk_funcs(rng, pool_size(rng))
+            if pools and rng.random() < 0.5:
+                # the same function names / ordinals imported from several libraries (memcpy from msvcrt
+                # and ntdll): distinct pairs all the same
+                other = pools[rng.choice(sorted(pools))]
+                shared = other[:rng.randint(1, min(len(other), 30))]
+                shared = shared + ["ms_" + f for f in shared[:3] if isinstance(f, str)] + \
+                    [f[3:] for f in shared if isinstance(f, str) and f.startswith("ms_")][:3]
+                pools[cl] = list(dict.fromkeys(shared + pools[cl]))
+                rec.count("histories_with_shared_function_names")
     # the order in which (lib, func) requests are made
     reqs = []
     for ln in lib_names:
